@@ -516,14 +516,14 @@ static void kf_mark_foreign_tls(int line) {
   fflush(stdout);
   pid_t pid = fork();
   if (pid == 0) {
-    signal(SIGALRM, SIG_DFL); alarm(40);
+    signal(SIGALRM, SIG_DFL); alarm(10);   /* a child that hangs after the race (both threads inside an error report) dies before the parent's watchdog fires */
     int devnull = open("/dev/null", 1); if (devnull >= 0) dup2(devnull, 2);
     malloc_noise_off();
     var x = new(Thread, $(Function, kf_storm));        /* the documented usage: a collector-managed Thread object in a stack variable */
     call(x);
     volatile int diverted = 0; time_t t0 = time(NULL);
     try {
-      while (time(NULL) - t0 < 8) for (int i = 0; i < 20000; i++) { var o = new(Int, $I(i)); (void)o; }
+      while (time(NULL) - t0 < 6) for (int i = 0; i < 20000; i++) { var o = new(Int, $I(i)); (void)o; }
     } catch (e) { diverted = 1; }
     kf_halt = 1;
     if (diverted) _exit(3);
@@ -531,7 +531,7 @@ static void kf_mark_foreign_tls(int line) {
     _exit(0);
   }
   int st = 0; waitpid(pid, &st, 0);
-  if (WIFEXITED(st) && WEXITSTATUS(st) == 0) I("kf mark-foreign-tls: not reproduced in this run (8 s)");
+  if (WIFEXITED(st) && WEXITSTATUS(st) == 0) I("kf mark-foreign-tls: not reproduced in this run (6 s)");
   else if (WIFEXITED(st) && WEXITSTATUS(st) == 3)
     XX("sig=kf-c13-mark-foreign-tls line=%d what=main only allocates; its mark phase reached `x = new(Thread, f)` and walked the worker's thread-local table while the worker was rewriting it: an exception came out of `new` in main", line);
   else
